@@ -276,3 +276,12 @@ theorem C21_interp_registers (c : Cfg) (call : Block → Bool → St → R) (g k
 (the log shows the frames of blocks kₙ, …, k₁ being entered in this order). -/
 example : (callBlock cfg 3 ⟨0, [.deferS 1 [], .deferS 2 [], .deferS 3 []]⟩ false st0).ev =
     [.enter 0 0, .at 0 1, .at 0 2, .at 0 3, .enter 1 3, .enter 2 2, .enter 3 1] := by decide
+
+/-- `fn f { tmp x1[0] x1[1] = 5 6; peek x1 }` on `[1 2 3]` (element assignment on the variable's
+CURRENT value, 798ebe2): inside the function x1 is `[5 6 3]`; afterwards both restores (each of the
+whole head variable, last first) have put `[1 2 3]` back. -/
+example :
+    let st1 : St := { st0 with store := fun _ => some (.list [1, 2, 3]) }
+    let r := callBlock cfg 3 ⟨0, [.asg 1 true [.elem 1 0, .elem 1 1] [.num 5, .num 6], .peek 2 1]⟩ true st1
+    r.ev = [.enter 0 0, .at 0 1, .at 0 2, .val 1 (some (.list [5, 6, 3]))] ∧
+    r.st.store 1 = some (.list [1, 2, 3]) ∧ r.out = none := by decide
